@@ -592,6 +592,21 @@ class DerefCitations(Contract):
         return MC.canonical_citation(info["text"], info["q"])[2:] + [
             tm.eq(tm.T("str.to_int", (tm.str_of_int(info["q"]),), INT), info["q"])]
 
+    def raises(self, ex, st, a):
+        # abstract view (call sites in assemble()): nothing is known about the citations of an input, a malformed
+        # one ('Doe2020': ValueError, raised by the code) or a dangling index ('[5]' with two references: IndexError out
+        # of the list) stops the pass half-way.  The pointwise view below excludes them by its precondition.
+        if rec_entity(st, a["record"]) is None or st.ghost.get("cit_wf"):
+            return []        # (cit_wf: the caller's hypothesis that every /citation is a bracketed index of an existing reference)
+        return [("ValueError", None, None), ("IndexError", None, None)]
+
+    def exc_state(self, ex, st, a, excname):
+        """the pass stopped somewhere inside this record: its citation cells are partly dereferenced"""
+        st = st.fork()
+        e = rec_entity(st, a["record"])
+        st.ghost["CIT"] = tm.store(st.ghost["CIT"], e, tm.fresh("partly_dereferenced", CITS))
+        return st
+
     def ensures(self, ex, pre, st, a, result):
         if rec_entity(pre, a["record"]) is not None:
             return []
@@ -1050,10 +1065,16 @@ class Assemble(Contract):
     pre-state (the reference list modulo Absent = [])."""
     file, qual = FILE, "AssemblyManager.assemble"
     props = ("C07", "C10", "C01", "C03", "C17")
+    # default: nothing is assumed about the /citation qualifiers of the inputs (a malformed or dangling one makes the
+    # dereferencing pass raise ValueError / IndexError: the frame must hold on those exits too -- C07);
+    # citations-well-formed: every /citation is a bracketed index of an existing reference (the quantifier of C17, C03,
+    # C01: then only the documented MoClo errors may come out)
+    variants = ("default", "citations-well-formed")
 
     def setup(self, ex, st, variant):
         mgr, v, M = mk_manager(ex, st)
         init_cells(ex, st)
+        st.ghost["cit_wf"] = (variant == "citations-well-formed")
         self.E = tm.seqcat(M.t, tm.sequnit(tm.V("v", INT)))
         self.cells_before = {}
         con = self
@@ -1092,7 +1113,10 @@ class Assemble(Contract):
         M = ex.models.list_term(st, st.get(a["self"], "modules"), INT)
         return [("InvalidSequence", some_invalid(M), None),
                 ("DuplicateModules", tm.or_(dup_cond(M), rcdup_cond(M)), None),
-                ("MissingModule", None, None)]
+                ("MissingModule", None, None)] + ([] if st.ghost.get("cit_wf") else [
+                    # a malformed or dangling citation in an input (see DerefCitations.raises): the frame below must
+                    # hold on these exits too
+                    ("ValueError", None, None), ("IndexError", None, None)])
 
     def _frame(self, ex, pre, st, a):
         E = ex.models.list_term(pre, pre.get(a["self"], "elements"), INT)
@@ -1136,11 +1160,12 @@ class VectorAssemble(Contract):
     its product; id and name default to "assembly"."""
     file, qual = "moclo/moclo/core/vectors.py", "AbstractVector.assemble"
     props = ("C01", "C03", "C09", "C17")
-    variants = ("defaults", "named")
+    variants = ("defaults", "named", "defaults/any-citations")
 
     def setup(self, ex, st, variant):
         ex.models.elem_kind = "AbstractModule"
         init_cells(ex, st)
+        st.ghost["cit_wf"] = not variant.endswith("any-citations")
         v = abstract_entity(st, "AbstractVector", tm.V("v", INT))
         m0 = abstract_entity(st, "AbstractModule", tm.V("m0", INT))
         a = dict(self=v, module=m0, modules=VT(tm.V("rest", SEQI), "list"))
@@ -1169,7 +1194,11 @@ class VectorAssemble(Contract):
         M, v, E = self._ME(st, a)
         return [("InvalidSequence", tm.or_(tm.not_(valid(v)), tm.eq(ostart(v), oend(v)), some_invalid(M)), None),
                 ("DuplicateModules", tm.or_(dup_cond(M), rcdup_cond(M)), None),
-                ("MissingModule", None, None)]
+                ("MissingModule", None, None)] + ([] if st.ghost.get("cit_wf") else [
+                    # only with a malformed ('Doe2020') or dangling ('[9]') /citation qualifier in an input record: outside
+                    # the quantifier of C17 (variants defaults / named: well-formed citations, MoClo errors only), inside that
+                    # of C07 (inputs untouched on every exit)
+                    ("ValueError", None, None), ("IndexError", None, None)])
 
     def ensures(self, ex, pre, st, a, result):
         need_cat(ex.models)
